@@ -2,6 +2,7 @@ package fileutils
 
 import (
 	"bufio"
+	"io"
 )
 
 // Readln returns a single line (without the ending \n)
@@ -17,6 +18,11 @@ func Readln(r *bufio.Reader) (string, error) {
 	for isPrefix && err == nil {
 		line, isPrefix, err = r.ReadLine()
 		ln = append(ln, line...)
+	}
+	if err == io.EOF && len(ln) > 0 {
+		// An unterminated last line that fills the buffer exactly comes with
+		// the end of file: it is a line, the end of file is for the next call
+		err = nil
 	}
 	return string(ln), err
 }
